@@ -107,6 +107,64 @@ def consume(sx, B):
             sx.claim(bool(np.allclose(nd["position"], cog, atol=1e-12)), "residue position is the centre of its atoms", what)
 
 
+def _gro_text(top, rows, box):
+    lines = ["pverif", "%5d" % len(rows)]
+    k = 0
+    for meta in top.molecules:
+        mol = meta.molecule
+        for a in sorted(mol.nodes, key=lambda x: mol.nodes[x]["index"]):
+            if k >= len(rows):
+                break
+            nd = mol.nodes[a]
+            lines.append("%5d%-5s%5s%5d%8.3f%8.3f%8.3f" % (nd["resid"] % 100000, nd["resname"], nd["atomname"], (k + 1) % 100000,
+                                                        rows[k][0], rows[k][1], rows[k][2]))
+            k += 1
+    lines.append("%10.5f%10.5f%10.5f" % tuple(box))
+    return "\n".join(lines) + "\n"
+
+
+SOLV = {"PA": MOLTYPES["PA"], "SOL": [("SOL", ["OW", "HW1"])], "W": [("W", ["W"])], "ION": [("NA", ["NA"])]}
+
+
+@condition("C04.coordfile",
+           anchors=["polyply.src.topology:Topology.add_positions_from_file", "polyply.src.topology:_coord_parser"],
+           rejects=(), selector_only=True, must_cover=["gro"],
+           outside=[".pdb input", "coordinates with more than three decimals"],
+           bounds={"quick": dict(layouts=[[("PA", 1), ("SOL", 2)], [("SOL", 1), ("PA", 1), ("W", 1)], [("ION", 1), ("SOL", 1), ("W", 2)]]),
+                   "thorough": dict(layouts=[[("PA", 1), ("SOL", 2)], [("SOL", 1), ("PA", 1), ("W", 1)], [("ION", 1), ("SOL", 1), ("W", 2)],
+                                             [("W", 2), ("SOL", 2), ("PA", 1), ("ION", 2)]])})
+def coordfile(sx, B):
+    """Real add_positions_from_file with the real coordinate reader on a .gro file written into a per-path temp dir (solvent and ion
+    residue names included): every atom of the file is consumed in order - no residue name is filtered out by the reader."""
+    import tempfile, shutil, os
+    layout = sx.sel("layout", B["layouts"])
+    top = topology_from_text(top_text(SOLV, layout, atomtypes=("A", "B", "SOL", "W", "NA")))
+    natoms = sum(len(m.molecule.nodes) for m in top.molecules)
+    rows = np.array([np.round(sentinel(k), 3) for k in range(natoms)])
+    d = tempfile.mkdtemp(prefix="pverif_", dir=os.environ.get("TMPDIR"))
+    try:
+        path = os.path.join(d, "conf.gro")
+        with open(path, "w") as f:
+            f.write(_gro_text(top, rows, (9.0, 8.0, 7.0)))
+        top.add_positions_from_file(path, skip_res=[], resolution="mol")
+    finally:
+        shutil.rmtree(d, ignore_errors=True)
+    sx.cover("gro")
+    k = 0
+    for mi, meta in enumerate(top.molecules):
+        mol = meta.molecule
+        for a in sorted(mol.nodes, key=lambda x: mol.nodes[x]["index"]):
+            p = mol.nodes[a].get("position")
+            sx.claim(p is not None and bool(np.allclose(p, rows[k], atol=1e-9)), "atom keeps exactly the coordinates given for it in the file",
+                     lambda: "molecule %d (%s) atom %s: %r expected %r" % (mi, meta.mol_name, mol.nodes[a]["atomname"], p, rows[k]))
+            k += 1
+        for node in meta.nodes:
+            sx.claim(meta.nodes[node]["build"] is False and meta.nodes[node]["backmap"] is False,
+                     "completely supplied residue is neither built nor backmapped",
+                     lambda: "molecule %d (%s) residue %r" % (mi, meta.mol_name, node))
+    sx.claim(bool(np.allclose(top.box, (9.0, 8.0, 7.0))), "box of the input structure is taken over")
+
+
 class _Tqdm:
     def __init__(self, *a, **k):
         pass
